@@ -10,7 +10,7 @@ import "github.com/circlefin/noble-cctp/x/cctp/verifrt"
 func c10(idx int) {
 	h := newH("")
 	h.setupAdminState(2)
-	from := verifrt.NondetString("from", roleCap)
+	from := nondetSubmitter()
 	h.Env.BeginTx()
 	ok, _ := h.callAdmin(idx, from)
 	slot := specSlot(idx)
